@@ -32,6 +32,7 @@ type Options struct {
 	Known         map[string][]string // obligation label -> known-finding class labels
 	DumpDir       string
 	DumpMax       int
+	Dedup         bool // merge identical states reached on different schedules (costly: off by default)
 }
 
 func DefaultOptions() Options {
@@ -83,6 +84,7 @@ type Result struct {
 	Stubs       map[string]int // intrinsics hit
 	Steps       int
 	TrivialChecks int
+	Merged        int
 	NSat, NUnsat, NUnknown int
 	SolverTime  time.Duration
 	Wall        time.Duration
@@ -116,6 +118,7 @@ type Engine struct {
 	funcByName map[string]*ssa.Function
 	dumped, dumpSeen int
 	curTimerFires    int
+	seen             map[string]bool
 }
 
 type abort struct {
